@@ -444,7 +444,7 @@ Proof.
   destruct (handle_exception_good k suite (rs_t r) l G H); auto.
 Qed.
 
-Lemma run_setup_funcs_good env pairs : forall r kept l, rgood l r -> rgood l (fst (run_setup_funcs env pairs r kept)).
+Lemma run_setup_funcs_good env suite pairs : forall r kept l, rgood l r -> rgood l (fst (run_setup_funcs env suite pairs r kept)).
 Proof.
   induction pairs as [|[[f|] td] rest IH]; intros r kept l R; simpl; auto.
   pose proof (call_sfun_good env f r l R) as R1.
@@ -453,7 +453,7 @@ Proof.
   - destruct (rs_failed r1); simpl; auto.
 Qed.
 
-Lemma run_teardown_list_good env tds : forall r l, rgood l r -> rgood l (run_teardown_list env tds r).
+Lemma run_teardown_list_good env suite tds : forall r l, rgood l r -> rgood l (run_teardown_list env suite tds r).
 Proof.
   induction tds as [|[f|] rest IH]; intros r l R; simpl; auto.
   destruct (rs_died r); auto.
@@ -528,9 +528,9 @@ Proof.
   { unfold rgood; cbn [rs_t rs_children]. split; [|split; [apply set_step_has_step|constructor]].
     apply good_set_step. exists p0. split; [reflexivity|]. eapply sh_nostep; simpl; eauto. }
   set (r0 := mkRs (set_step SdSetupTest [] (fresh_cursor l [AtFire (RTestStart p)])) false [] false) in *.
-  assert (R1 : rgood l (fst (if any_setup pairs then run_setup_funcs env pairs r0 [] else (r0, only_teardowns pairs)))).
+  assert (R1 : rgood l (fst (if any_setup pairs then run_setup_funcs env (Some suite) pairs r0 [] else (r0, only_teardowns pairs)))).
   { destruct (any_setup pairs); [apply run_setup_funcs_good; exact R0|exact R0]. }
-  destruct (if any_setup pairs then run_setup_funcs env pairs r0 [] else (r0, only_teardowns pairs)) as [r1 kept] eqn:E1.
+  destruct (if any_setup pairs then run_setup_funcs env (Some suite) pairs r0 [] else (r0, only_teardowns pairs)) as [r1 kept] eqn:E1.
   simpl in R1.
   destruct (rs_died r1) eqn:D1; [apply finish_died; auto|].
   set (r2 := if rs_failed r1 then r1 else _).
@@ -566,8 +566,8 @@ Proof.
   { unfold rgood, r0; cbn [rs_t rs_children]. split; [|split; [apply set_step_has_step|constructor]].
     apply good_set_step. exists p0. split; [reflexivity|].
     eapply sh_nostep with (pre := [start]); simpl; eauto. }
-  pose proof (run_setup_funcs_good env pairs r0 [] l R0) as R1.
-  destruct (run_setup_funcs env pairs r0 []) as [r kept]. simpl in R1.
+  pose proof (run_setup_funcs_good env None pairs r0 [] l R0) as R1.
+  destruct (run_setup_funcs env None pairs r0 []) as [r kept]. simpl in R1.
   destruct (rs_died r) eqn:D; [apply finish_died; auto|].
   destruct R1 as [G1 [H1 C1]].
   pose proof (close_phase l (rs_t r) is_start end_ G1 Re) as Dn.
@@ -586,10 +586,10 @@ Proof.
   { unfold rgood, r0; cbn [rs_t rs_children]. split; [|split; [apply set_step_has_step|constructor]].
     apply good_set_step. exists p0. split; [reflexivity|].
     eapply sh_nostep with (pre := [start]); simpl; eauto. }
-  pose proof (run_teardown_list_good env (rev kept) r0 l R0) as R1.
-  unfold run_teardown_funcs. destruct (rs_died (run_teardown_list env (rev kept) r0)) eqn:D; [apply finish_died; auto|].
+  pose proof (run_teardown_list_good env None (rev kept) r0 l R0) as R1.
+  unfold run_teardown_funcs. destruct (rs_died (run_teardown_list env None (rev kept) r0)) eqn:D; [apply finish_died; auto|].
   destruct R1 as [G1 [H1 C1]].
-  pose proof (close_phase l (rs_t (run_teardown_list env (rev kept) r0)) is_start end_ G1 Re) as Dn.
+  pose proof (close_phase l (rs_t (run_teardown_list env None (rev kept) r0)) is_start end_ G1 Re) as Dn.
   constructor; cbn [to_main to_children to_res]; auto.
   apply (thread_done_prefix _ _ _ Dn).
 Qed.
